@@ -3,6 +3,7 @@ package main
 import (
 	"encoding/json"
 	"fmt"
+	"math/rand"
 	"os"
 	"path/filepath"
 	"runtime"
@@ -147,12 +148,14 @@ func runCheck(opt *checkOpts) int {
 	defer os.RemoveAll(outDir)
 	timeout := 10 * time.Second
 	if thorough {
-		timeout = 60 * time.Second
+		timeout = 30 * time.Second
 	}
 	workers := runtime.NumCPU()
 	if thorough {
-		workers = (workers + 2) / 3
+		workers = (workers + 1) / 2
 	}
+	rng := rand.New(rand.NewSource(int64(seed) + 1))
+	sampleEvery := 12 // about one obligation in twelve is cross-checked with cvc5 in the thorough tier
 	pl := newPool(outDir, workers, thorough, timeout)
 	notes := map[string]bool{}
 	var funcsUnder []string
@@ -229,6 +232,13 @@ func runCheck(opt *checkOpts) int {
 				structural = append(structural, Result{Obl: Obligation{Name: o.Name, Clause: o.Clause, Func: o.Func, Pos: o.Pos}, Verdict: "error",
 					Attempts: []Attempt{{Solver: "govc", Verdict: "error", Out: fmt.Sprintf("query of %d bytes exceeds the 2 MiB cap", len(o.Query))}}})
 				continue
+			}
+			if d := os.Getenv("GOVC_DUMP"); d != "" {
+				os.MkdirAll(d, 0o755)
+				os.WriteFile(filepath.Join(d, fileBase(o.Name)+".smt2"), []byte(o.Query), 0o644)
+			}
+			if thorough && !o.MustFail && rng.Intn(sampleEvery) == 0 {
+				o.Sample = true
 			}
 			pl.in <- o
 		}
@@ -460,7 +470,7 @@ func runCheck(opt *checkOpts) int {
 	}
 	checker := "govc check -property " + opt.property + " -tier " + opt.tier + ": go/ssa (NaiveForm) -> weakest-precondition style VCs, one SMT-LIB query per obligation; z3 5.1.0 (smt.auto_config=false smt.mbqi=false), then z3 4.8.12 and cvc5 1.0.3 on whatever is not unsat"
 	if thorough {
-		checker = "govc check -property " + opt.property + " -tier thorough: every obligation sent to z3 5.1.0, z3 4.8.12 and cvc5 1.0.3 (60 s each); one sat anywhere fails the obligation"
+		checker = "govc check -property " + opt.property + " -tier thorough: every obligation sent to z3 5.1.0 and z3 4.8.12 (30 s each), a seeded sample of about 1 in 12 also to cvc5 1.0.3 (15 s); an obligation counts as discharged when one answers unsat and none answers sat; the must-fail corpus of this property is run afterwards"
 	}
 	ev := map[string]any{
 		"property_id": opt.property, "tier": opt.tier, "seed": seed, "level": "proof", "wall_s": round3(wall), "violations": violations,
